@@ -90,6 +90,16 @@ func (self *mmLexInfo) Lex(lval *mmSymType) int {
 	}
 }
 
+// fail records an error which a grammar action found in the given token, so
+// that it is reported like a syntax error at that token.  The action must
+// abort the parse (return 1) after calling it.
+func (self *mmLexInfo) fail(loc SourceLoc, token []byte, msg string) {
+	self.loc = loc
+	self.previous = nil
+	self.token = token
+	self.err = msg
+}
+
 func (self *mmLexInfo) getLine() []byte {
 	if self.pos >= len(self.src) {
 		return nil
